@@ -362,7 +362,41 @@ fn roundtrip(name: &str, a: &[String]) -> Option<String> {
     Some(out)
 }
 
+
+/// shim for the two crate-local names used by crates/sdk/src/utils/fixed.rs
+pub mod sdk_shim {
+    pub const MARKET_DECIMALS: u8 = 20;
+    #[derive(Debug)]
+    pub struct Error(pub String);
+    impl Error { pub fn custom(e: impl std::fmt::Display) -> Self { Error(e.to_string()) } }
+    pub type Result<T> = std::result::Result<T, Error>;
+}
+/// the TEXT of crates/sdk/src/utils/fixed.rs (everything above its test module), spliced in by engine/replay.py
+#[allow(dead_code, unused_imports, clippy::all)]
+pub mod sdk_fixed { include!(concat!(env!("CARGO_MANIFEST_DIR"), "/gen/sdk_fixed.rs")); }
+
+/// `sdkfixed.<fn> <args>`: u2d <u128> <decimals> | s2d <i128> <decimals> | ua2d <u64> <decimals> | sa2d <i64> <decimals> (-> Decimal as
+/// `mantissa/scale` or None) | d2a / d2sv / d2v <mantissa> <scale> <decimals> (Decimal given as i128 mantissa and scale -> Ok(n) / Err)
+fn sdkfixed(name: &str, a: &[String]) -> Option<String> {
+    use rust_decimal::Decimal;
+    let show = |d: Decimal| format!("{}/{}", d.mantissa(), d.scale());
+    let dec = |i: usize| -> Option<Decimal> { Decimal::try_from_i128_with_scale(a[i].parse::<i128>().ok()?, a[i + 1].parse::<u32>().ok()?).ok() };
+    Some(match name {
+        "u2d" => sdk_fixed::unsigned_fixed_to_decimal(a[0].parse().ok()?, a[1].parse().ok()?).map(show).unwrap_or("None".into()),
+        "s2d" => sdk_fixed::signed_fixed_to_decimal(a[0].parse().ok()?, a[1].parse().ok()?).map(show).unwrap_or("None".into()),
+        "ua2d" => show(sdk_fixed::unsigned_amount_to_decimal(a[0].parse().ok()?, a[1].parse().ok()?)),
+        "sa2d" => show(sdk_fixed::signed_amount_to_decimal(a[0].parse().ok()?, a[1].parse().ok()?)),
+        "d2a" => match dec(0) { Some(d) => sdk_fixed::decimal_to_amount(d, a[2].parse().ok()?).map(|v| format!("Ok({v})")).unwrap_or("Err".into()), None => "BadDecimal".into() },
+        "d2sv" => match dec(0) { Some(d) => sdk_fixed::decimal_to_signed_value(d, a[2].parse().ok()?).map(|v| format!("Ok({v})")).unwrap_or("Err".into()), None => "BadDecimal".into() },
+        "d2v" => match dec(0) { Some(d) => sdk_fixed::decimal_to_value(d, a[2].parse().ok()?).map(|v| format!("Ok({v})")).unwrap_or("Err".into()), None => "BadDecimal".into() },
+        _ => return None,
+    })
+}
+
 pub fn dispatch(name: &str, a: &[String]) -> Option<String> {
+    if let Some(n) = name.strip_prefix("sdkfixed.") {
+        return sdkfixed(n, a);
+    }
     if let Some(n) = name.strip_prefix("roundtrip.") {
         return roundtrip(n, a);
     }
